@@ -30,8 +30,11 @@ SiteCases ==
            s \in {x \in SiteIds : SiteTarget[x] \in HelperNs}}
 ChainKinds == {"GROUP", "FUNCTION", "UNIT"}
 \* rev: the chain elements appear in the file in reverse order (referenced before referrer)
-ChainCases == {[fam |-> "chain", kind |-> k, len |-> n, cyc |-> cy, leaf |-> lf, rev |-> rv] :
-                  k \in ChainKinds, n \in 1..5, cy \in BOOLEAN, lf \in {"member", "empty", "referenced"}, rv \in BOOLEAN}
+\* head: the first element of the chain is referenced from outside (it must stay whatever happens to the elements
+\* it refers to)
+ChainCases == {[fam |-> "chain", kind |-> k, len |-> n, cyc |-> cy, leaf |-> lf, rev |-> rv, head |-> hd] :
+                  k \in ChainKinds, n \in 1..5, cy \in BOOLEAN, lf \in {"member", "empty", "referenced"}, rv \in BOOLEAN,
+                  hd \in BOOLEAN}
 MemberCases == {[fam |-> "member", gk |-> gk, mk |-> mk] :
                   gk \in {"GROUP", "FUNCTION"}, mk \in {"AXIS_PTS", "BLOB", "CHARACTERISTIC", "INSTANCE", "MEASUREMENT"}}
 
@@ -65,7 +68,10 @@ ModuleOf(x) ==
                          ELSE <<El("COMPU_METHOD", "cm0", 51, <<<<"COMPU_METHOD/REF_UNIT.unit", <<"h1">>>>>>),
                                 El("MEASUREMENT", "m0", 50, <<<<"MEASUREMENT.conversion", <<"cm0">>>>>>)>>
                     ELSE <<>>
-        IN chain \o refd \o <<El("CHARACTERISTIC", "c0", 60, <<>>)>>
+            headRef == IF ~x.head \/ x.kind = "UNIT" THEN <<>>
+                       ELSE IF x.kind = "GROUP" THEN <<El("USER_RIGHTS", "user0", 41, <<<<"USER_RIGHTS/REF_GROUP.identifier_list", <<"h1">>>>>>)>>
+                       ELSE <<El("MEASUREMENT", "m1", 52, <<<<"MEASUREMENT/FUNCTION_LIST.name_list", <<"h1">>>>>>)>>
+        IN chain \o refd \o headRef \o <<El("CHARACTERISTIC", "c0", 60, <<>>)>>
     ELSE
         <<El(x.gk, "g1", 20, <<<<MemberSite(x.gk), <<"x0">>>>>>), El(x.mk, "x0", 60, <<>>)>>
 
